@@ -56,7 +56,7 @@ ASSUMPTIONS = [
 LEVEL_TEXT = ('generated LAS texts against an independent content model and an exact decimal reference; three layouts per '
               'model compared with each other; counts and samples in the evidence file')
 SHARDS = {'quick': 4, 'thorough': 16}
-REQUIRED_CLASSES = {
+REQUIRED_CLASSES = {'layout:last-line-of-one-character-without-line-end': 1, 
     'nt:wrapped>=3curves>=2frames+comment-in-data+colon-value': 1,
     'layout:wrapped': 1, 'layout:unwrapped': 1, 'layout:comment-inside-wrapped-frame': 1, 'layout:tabs-in-data': 1,
     'layout:indented-comment': 1, 'layout:ws-only-line': 1, 'layout:decoration-before-~V': 1,
@@ -67,6 +67,22 @@ REQUIRED_CLASSES = {
 
 RETYPE_PCT = 3
 OTHER_NULL_PCT = 6
+
+
+@st.composite
+def short_tail_cases(draw):
+    """The smallest data sections: the index alone (or one more curve), a handful of frames whose last index value is a single digit,
+    no decoration, and often no line end after the last line - the last line of the file is then one or two characters long."""
+    model = draw(genlas.las_models(max_curves=draw(st.sampled_from((1, 1, 2))), max_frames=5, retype_pct=0, other_null_pct=0))
+    n = len(model['data'])
+    last = draw(st.integers(0, 9))
+    step = draw(st.integers(1, 3))
+    index = [str(last + (n - 1 - i) * step) for i in range(n)]
+    model = dict(model, data=[[index[i]] + list(row[1:]) for i, row in enumerate(model['data'])],
+                 W=[dict(ln, value=index[0], kind='int') if ln['mnem'] == 'STRT' else dict(ln, value=index[-1], kind='int') if ln['mnem'] == 'STOP'
+                    else dict(ln, value=str(-step), kind='int') if ln['mnem'] == 'STEP' else ln for ln in model['W']])
+    lay = lambda wrap: dict(genlas.plain_layout(wrap), final_newline=draw(st.integers(0, 2)) == 0)  # noqa
+    return {'model': model, 'layouts': [lay(False), lay(True), lay(False)]}
 
 
 @st.composite
@@ -345,6 +361,8 @@ def check(case, cc):
         cc.cls('layout:ws-only-line', info['ws_only_line'] > 0)
         cc.cls('layout:decoration-before-~V', info['before_first_section'] > 0)
         cc.cls('layout:no-final-newline', not layout.get('final_newline', True))
+        cc.cls('layout:last-line-of-one-character-without-line-end', not layout.get('final_newline', True) and not wrap
+               and len(model['data'][-1]) == 1 and len(model['data'][-1][0]) == 1 and layout.get('leads') == [0] and layout.get('trails') == [0])
         cc.cls('layout:aligned-columns', bool(layout.get('aligned')))
         cc.cls('layout:line-longer-than-8192', max(layout['pads']) > 8000)
         cc.cls('wrapped-single-curve', wrap and ncurves == 1)
@@ -434,6 +452,7 @@ def parts(tier):
     return [
         HypPart('las-layouts', cases(), check, 1800, 48000),
         HypPart('las-small', cases(max_curves=3, max_frames=4), check, 600, 16000),
+        HypPart('las-short-tail', short_tail_cases(), check, 300, 6000),
     ]
 
 
